@@ -5,7 +5,7 @@
     IfFeature.Evaluate and ifFeatureEval.* after the two "fix: if-feature ..." commits), tied to
     the code by the C11 correspondence check. *)
 From Coq Require Import List Bool Arith Strings.Byte.
-From YV Require Import Feature.IfFeature Feature.IfFeatureProofs.
+From YV Require Import Feature.IfFeature Feature.IfFeatureProofs Feature.Guard Feature.GuardProofs.
 Import ListNotations.
 
 (** ** (i) the evaluator implements RFC 7950 7.20.2 on every expression and every assignment *)
@@ -99,3 +99,42 @@ Theorem C11_pinned_commit_refuted :
   denote witness_expr all_off = false.
 Proof. exact old_eval_refuted_print. Qed.
 Print Assumptions C11_pinned_commit_refuted.
+
+(** ** (ii) guard presence.  Model: Feature/Guard.v (meta/feature_set.go Initialize/Resolve/
+    checkFeature and the checkFeature call sites of meta/resolver.go after the "fix:" commits) *)
+
+(** Initialize turns on exactly the declared features that the allow-list names / the deny-list
+    does not name (all-on = empty deny-list) *)
+Theorem C11_enabled_set : forall cfg declared f,
+  mem f (initialize cfg declared) = is_enabled cfg declared f.
+Proof. exact mem_initialize. Qed.
+Print Assumptions C11_enabled_set.
+
+(** GUARD PRESENCE.  For every configuration, every set of declared features and every list of
+    guarded statements (data node, case, uses, augment, the refines of a uses) whose if-feature
+    arguments are written expressions: the load succeeds, and a statement is present (a refine
+    applied) exactly when ALL its expressions are true of the enabled features; the result cache
+    of the feature set is transparent. *)
+Theorem C11_guard_presence : forall cfg declared ss, forallb gstmt_ok ss = true ->
+  compile cfg declared (map texts_of ss) = Loaded (map (spec_obs cfg declared) ss).
+Proof. exact guard_presence. Qed.
+Print Assumptions C11_guard_presence.
+
+Example C11_guard_hyps_met :
+  forallb gstmt_ok [GData [(mkStyle [x20] [] 0, witness_expr)];
+                    GRefines [[(mkStyle [x20] [] 0, Feat [x61])]; [(mkStyle [x20] [] 0, Not (Feat [x61]))]]] = true.
+Proof. exact guard_hyps_met. Qed.
+
+(** "a malformed expression anywhere makes the load fail" is false of the code: checkFeature
+    stops at the first expression that is off (known finding 2).  Witness: a leaf guarded by
+    "zz" (not a feature) and then by "and and" loads, without the leaf. *)
+Definition C11_guard_malformed_full_statement : Prop :=
+  forall cfg declared ss, (exists s t, In s ss /\ In t (concat (match s with
+      | SData i | SCase i | SUses i | SAugment i => [i] | SRefines r => r end)) /\
+      eval_impl t (env_of (initialize cfg declared)) = RErr) ->
+  compile cfg declared ss = LoadErr.
+Theorem C11_guard_malformed_refuted :
+  eval_impl [x61; x6e; x64; x20; x61; x6e; x64] (env_of []) = RErr /\
+  compile (AllBut []) [[x61]] [SData kf2_texts] = Loaded [[false]].
+Proof. exact lazy_malformed. Qed.
+Print Assumptions C11_guard_malformed_refuted.
